@@ -272,6 +272,11 @@ func H08e() {
 	vAssert(vSharedWrites() == 0, "C08.frame.encode-writes-no-shared-object")
 	_ = Encode(&x, fx, order)
 	_ = Encode(&z, fz, order)
+	// ... and one that fails part-way (a string that is not valid UTF-8)
+	bad, _ := NewFile(FileTypeActivity, NewHeader(V20, true))
+	bad.FileId.ProductName = "\xff\xfe"
+	var sink bytes.Buffer
+	_ = Encode(&sink, bad, order)
 	e1 := Encode(&y1, fy, order)
 	vAssert(vSharedWrites() == 0, "C08.frame.encode-writes-no-shared-object")
 	vTrackShared(false)
